@@ -218,11 +218,81 @@ def _false_edge_is_error(F, fn, bb, t):
     return True
 
 
+def rule_r5(F, rep):
+    R = rep.rule("C20.R5", "no digit of the text is dropped when a number is read: in the radix parsers (parseHex, parseOctal, "
+                 "YAML 0x/0o scalars) the value of every digit obtained from `char::to_digit` flows into the result; a digit that is "
+                 "only tested for validity cannot influence rounding, so two digit strings with different exact values are "
+                 "forced to the same double even when they lie on different sides of a rounding boundary")
+    PRED = ("<core::option::Option>::is_none", "<core::option::Option>::is_some")
+    PASS = ("<core::option::Option>::ok_or", "<core::option::Option>::ok_or_else", "core::ops::try_trait::Try>::branch",
+            "<core::option::Option>::unwrap", "<core::option::Option>::expect", "<core::option::Option>::unwrap_or",
+            "<core::result::Result>::unwrap", "<core::option::Option>::map")
+    n = 0
+    for fn in F.fn_list:
+        if fn.crate.name != "rsjsonnet_lang" or "parse_num_radix" not in fn.q or "{closure" in fn.q:
+            continue
+        body = fn.body
+        rep.fn(fn)
+        for bb, t in body.calls():
+            nme = callee_name(t) or ""
+            if not nme.endswith("<char>::to_digit") and nme != "<char>::to_digit" and not nme.endswith("char::methods::<impl char>::to_digit"):
+                continue
+            n += 1
+            slice_ = {t["dst"]["l"]}
+            payload_read = False
+            changed = True
+            while changed:
+                changed = False
+                for b2, si, st in body.assigns():
+                    rv = st["rv"]
+                    ops = []
+                    if rv["k"] in ("use", "cast"):
+                        ops = [rv["x"]]
+                    elif rv["k"] in ("ref", "rawptr", "discr"):
+                        ops = [dict(rv["p"], k="copy")]
+                    elif rv["k"] == "binop":
+                        ops = [rv["a"], rv["b"]]
+                    elif rv["k"] == "agg":
+                        ops = rv["xs"]
+                    for x in ops:
+                        if x.get("k") in ("copy", "move") and x["l"] in slice_:
+                            reads_payload = any(pr != "*" and pr["k"] == "d" and pr["v"] in ("Some", "Continue", "Ok") for pr in x["p"])
+                            if rv["k"] == "discr":
+                                continue
+                            if reads_payload:
+                                payload_read = True
+                            if not st["p"]["p"] and st["p"]["l"] not in slice_:
+                                slice_.add(st["p"]["l"])
+                                changed = True
+                for b2, t2 in body.calls():
+                    n2 = callee_name(t2) or ""
+                    if any(x.get("k") in ("copy", "move") and x["l"] in slice_ for x in t2["xs"]):
+                        if n2 in PRED:
+                            continue
+                        if any(n2.endswith(p_) or n2 == p_ for p_ in PASS):
+                            if t2["dst"]["l"] not in slice_:
+                                slice_.add(t2["dst"]["l"])
+                                changed = True
+                        else:
+                            payload_read = True
+            ok = payload_read
+            rep.ob(R, "%s|to_digit@%s" % (fn.q, body.span(t["sp"]).rsplit(":", 2)[-2]), ok, {"fn": fn.q, "site": body.span(t["sp"]),
+                                                                                       "digit_value_used": payload_read})
+            if not ok:
+                rep.violation(R, "%s|digit-value-dropped" % fn.q,
+                              "%s obtains a digit with char::to_digit and only tests that it is valid; its value never reaches the "
+                              "result, so digits beyond the accumulator's width cannot break a rounding tie "
+                              "(e.g. parseHex of a 33-digit string whose first 32 digits are exactly half-way between two doubles)" % fn.q,
+                              body.span(t["sp"]))
+    rep.floor(R, n, 2, "to_digit sites in the radix parsers")
+
+
 def run(F, rep, tier):
     rule_r1(F, rep)
     units.rule_byte_index(F, rep, "C20.R2")
     c06.rule_r1(F, rep)
     rule_r4(F, rep)
+    rule_r5(F, rep)
     rep.assume("base64 / UTF-8 / digest / escape-function values, decoder-inverts-encoder, YAML/JSON agreement and "
                "totality inside saphyr-parser are value-level or external and not decided")
     return EXPLANATION
